@@ -40,6 +40,13 @@ func drivers(quick bool) []conc.Driver {
 		)
 	}
 	var ds []conc.Driver
+	{
+		// two faults, the second in a cycle that follows a failed and cleared one
+		s := mdrv.Scenario{Chunk: 1, Concurrent: false, Cycles: []int{2, 2}, Faults: true, Continue: true}
+		cfg2 := cfg
+		cfg2.MaxFaults = 2
+		ds = append(ds, conc.Driver{Name: s.Name() + "-faults2", Cfg: cfg2, Mk: func() vrt.Run { return s.Mk() }, Fallback: []int{0, 1, 2, 3, 4}})
+	}
 	for _, s := range scs {
 		s := s
 		ds = append(ds, conc.Driver{Name: s.Name() + "-faults1", Cfg: cfg, Mk: func() vrt.Run { return s.Mk() }, Fallback: []int{0, 1, 2, 3, 4}})
